@@ -26,6 +26,7 @@ import (
 	"go/token"
 	"os"
 	"strconv"
+	"strings"
 )
 
 type rewriter struct {
@@ -235,6 +236,7 @@ func main() {
 	out := flag.String("out", "", "output Go file")
 	labels := flag.String("labels", "", "label table output")
 	tag := flag.String("tag", "verif", "build tag of the output file")
+	subst := flag.String("subst", "", "comma separated pkg.Func=newName call substitutions")
 	flag.Parse()
 	fset := token.NewFileSet()
 	f, err := parser.ParseFile(fset, *in, nil, parser.ParseComments)
@@ -243,6 +245,22 @@ func main() {
 		os.Exit(1)
 	}
 	r := &rewriter{fset: fset}
+	if *subst != "" {
+		for _, kv := range strings.Split(*subst, ",") {
+			parts := strings.SplitN(kv, "=", 2)
+			pf := strings.SplitN(parts[0], ".", 2)
+			ast.Inspect(f, func(n ast.Node) bool {
+				if c, ok := n.(*ast.CallExpr); ok {
+					if sel, ok := c.Fun.(*ast.SelectorExpr); ok {
+						if id, ok := sel.X.(*ast.Ident); ok && id.Name == pf[0] && sel.Sel.Name == pf[1] {
+							c.Fun = ast.NewIdent(parts[1])
+						}
+					}
+				}
+				return true
+			})
+		}
+	}
 	for _, d := range f.Decls {
 		fd, ok := d.(*ast.FuncDecl)
 		if !ok || fd.Body == nil {
